@@ -36,6 +36,7 @@ type CapExec struct {
 	Inner gateway.Executor
 	mu    sync.Mutex
 	Raw   map[string]interface{}
+	Err   error // what the inner executor returned (before response middlewares)
 }
 
 func (c *CapExec) Execute(ctx *gateway.ExecutionContext) (map[string]interface{}, error) {
@@ -45,6 +46,7 @@ func (c *CapExec) Execute(ctx *gateway.ExecutionContext) (map[string]interface{}
 	json.Unmarshal(b, &cp)
 	c.mu.Lock()
 	c.Raw = cp
+	c.Err = e
 	c.mu.Unlock()
 	return d, e
 }
